@@ -319,6 +319,17 @@ fn c08_case(seed: u64, index: u64, md: &mut Model, rep: &mut Report) {
             let sv = d1.doc.transact().state_vector();
             let du = catch(|| if v2 { yrs::diff_updates_v2(u, &sv.encode_v2()) } else { yrs::diff_updates_v1(u, &sv.encode_v1()) });
             let du = match du { Ok(Ok(x)) => x, Ok(Err(e)) => { fails.push(json!({"class": "diff-error", "error": format!("{e}")})); continue; } Err(p) => { fails.push(json!({"class": "diff-panic", "error": p, "update": hex(u)})); continue; } };
+            // the transcription of Update::encode_diff (Crdt/Diff.v) writes the same update (bytes, or the same blocks where the
+            // implementation writes an Any map in hash order); which hypotheses of its theorems the arguments satisfy is recorded
+            if !v2 {
+                let m = md.ask(&format!("DFF diff {} {}", hex(u), hex(&sv.encode_v1())));
+                rep.count("c08_diffs_compared_with_the_transcription");
+                let mut it = m.split(' ');
+                match (it.next(), it.next()) {
+                    (Some("ok"), Some(h)) if *h == hex(&du) || md.ask(&format!("DEC update {}", h)) == md.ask(&format!("DEC update {}", hex(&du))) => { if m.contains("wf=1") && m.contains("cut=1") { rep.count("c08_diff_arguments_satisfy_the_hypotheses_of_dff_diff_units"); } }
+                    _ => disag.push(json!({"kind": "diff_updates transcription", "model": m.chars().take(600).collect::<String>(), "impl": hex(&du), "update": hex(u), "sv": hex(&sv.encode_v1())})),
+                }
+            }
             let _ = if v2 { d1.apply_v2(u) } else { d1.apply_v1(u) };
             let r2 = if v2 { d2.apply_v2(&du) } else { d2.apply_v1(&du) };
             rep.count("c08_diffs");
@@ -326,6 +337,25 @@ fn c08_case(seed: u64, index: u64, md: &mut Model, rep: &mut Report) {
                 fails.push(json!({"class": "diff-differs-from-apply", "v2": v2, "error": format!("{:?}", r2.err()), "update": hex(u), "diff": hex(&du), "with_update": idump(&d1.doc), "with_diff": idump(&d2.doc)}));
             }
         }
+        }
+    }
+    // encode_state_vector_from_update on every update of the pool (gaps, Skip blocks): implementation vs transcription
+    for u in pool1.iter() {
+        if let Ok(a) = yrs::encode_state_vector_from_update_v1(u) {
+            let (m, ms) = (md.ask(&format!("DFF sv {}", hex(u))), md.ask(&format!("DEC sv {}", hex(&a))));
+            let strip = |x: &str| x.split(" rest=").next().unwrap_or("").to_string();
+            rep.count("c08_sv_from_update_compared_with_the_transcription");
+            if !m.starts_with("ok") || strip(&m) != strip(&ms) { disag.push(json!({"kind": "state vector from update transcription", "model": m, "impl": ms, "update": hex(u)})); }
+        }
+    }
+    // a state vector that points between the two UTF-16 units of a surrogate pair (a Yjs peer can have such a clock): every unit of
+    // the diff must be the unit of the update with the same id (Crdt/DiffProofs.v: dff_diff_units needs dff_cut_ok; the witness of
+    // dff_diff_units_pair_refuted is the known finding)
+    if index % 64 == 0 {
+        let u = crate::model::unhex("010205000401017404f09f9880840501017a00"); let sv = crate::model::unhex("010501");
+        if let Ok(du) = yrs::diff_updates_v1(&u, &sv) {
+            let m = md.ask(&format!("DEC unitcmp {} {}", hex(&du), hex(&u)));
+            if !m.starts_with("ok ") { fails.push(json!({"class": "diff-inside-a-surrogate-pair-shifts-ids", "update": hex(&u), "state_vector": hex(&sv), "diff": hex(&du), "units": m})); }
         }
     }
     // encode_state_vector_from_update on gap-free full states
@@ -339,6 +369,11 @@ fn c08_case(seed: u64, index: u64, md: &mut Model, rep: &mut Report) {
         rep.count("c08_sv_from_update");
         match (yrs::encode_state_vector_from_update_v1(&full1), yrs::encode_state_vector_from_update_v2(&full2)) {
             (Ok(a), Ok(b)) => {
+                // the transcription of Update::state_vector computes the same vector
+                { let m = md.ask(&format!("DFF sv {}", hex(&full1))); let ms = md.ask(&format!("DEC sv {}", hex(&a)));
+                  let strip = |x: &str| x.split(" rest=").next().unwrap_or("").to_string();
+                  rep.count("c08_sv_from_update_compared_with_the_transcription");
+                  if !m.starts_with("ok") || strip(&m) != strip(&ms) { disag.push(json!({"kind": "state vector from update transcription", "model": m, "impl": ms, "update": hex(&full1)})); } }
                 let (a, b) = (StateVector::decode_v1(&a).unwrap_or_default(), StateVector::decode_v2(&b).unwrap_or_default());
                 if a != want || b != want { fails.push(json!({"class": "sv-from-update-wrong", "want": format!("{:?}", want), "v1": format!("{:?}", a), "v2": format!("{:?}", b)})); }
             }
